@@ -6,6 +6,7 @@ import (
 	"fmt"
 	"io"
 	"net"
+	"slices"
 	"time"
 
 	"github.com/quic-go/quic-go"
@@ -298,6 +299,10 @@ func (s *Server) handleRPCFreeSectors(stream net.Conn) error {
 	// modify the sector roots
 	//
 	// NOTE: must match the behavior of BuildFreeSectorsProof
+	//
+	// work on a copy: the contractor may hand out its own backing array, and
+	// nothing may change until the renter has signed the revision.
+	state.Roots = slices.Clone(state.Roots)
 	for i, n := range req.Indices {
 		state.Roots[n] = state.Roots[len(state.Roots)-i-1]
 	}
